@@ -266,7 +266,13 @@ func (h *Handler) saveConfig(fname string) (err error) {
 		return err
 	}
 
-	err = ioutil.WriteFile(fname, stream, os.ModePerm)
+	// write a temporary file and rename it over the lease file, so that a crash
+	// during the write cannot leave a truncated lease file behind
+	tmp := fname + ".tmp"
+	err = ioutil.WriteFile(tmp, stream, os.ModePerm)
+	if err == nil {
+		err = os.Rename(tmp, fname)
+	}
 	if err != nil {
 		fmt.Printf("error cannot write dhcp file: %s error %s", fname, err)
 		return err
